@@ -241,6 +241,64 @@ def case(arg):
             "l2d_stack": l2d_stack[0], "l2d_order": l2d_order[0], "commit_equiv": commit_equiv[0], "hidden": hidden}
 
 
+def l2d_failed_ask_case(seed):
+    """A non-committing ask that FAILS must leave no trace either (all request sizes, all reachable states): a Learner2D whose
+    loss function raises on demand - the request fails after ask has already taken points from the suggestion stack.  Twin B
+    never receives the failing call; pending points and every later answer must agree (repaired by 844d031)."""
+    import adaptive
+    from adaptive.learner import learner2D as L2
+    rng = random.Random(seed)
+    box = {"fail": False}
+
+    def loss(ip):
+        if box["fail"]:
+            raise RuntimeError("loss_per_triangle failed")
+        return L2.default_loss(ip)
+
+    f = lambda xy: xy[0] * xy[0] - 0.5 * xy[1]  # noqa: E731
+    a, b = (adaptive.Learner2D(f, bounds=[(0.2, 1.3), (-0.7, 0.4)], loss_per_triangle=loss) for _ in range(2))
+    res = {"kind": "l2d:failing-loss", "seed": seed, "nops": 0, "extra": 0, "fail": None}
+    try:
+        for _ in range(rng.choice([1, 2, 4])):
+            n = rng.choice([2, 4, 5, 7])
+            pa, pb = a.ask(n)[0], b.ask(n)[0]
+            k = rng.randrange(1, len(pa) + 1)
+            for p in pa[:k]:
+                a.tell(p, f(p))
+                b.tell(p, f(p))
+        if rng.random() < 0.5:
+            a.remove_unfinished()
+            b.remove_unfinished()
+        before = (dict(a.data), sorted(a.pending_points))
+        nreq = len(a._stack) + rng.choice([1, 2, 5])   # more than the stack holds: the refill (and so the loss function) is needed
+        box["fail"] = True
+        try:
+            a.ask(nreq, tell_pending=False)
+            res["fail"] = ("harness", "the failing loss function was not called")
+            return res
+        except RuntimeError:
+            res["extra"] = 1
+        finally:
+            box["fail"] = False
+        after = (dict(a.data), sorted(a.pending_points))
+        if after != before:
+            res["fail"] = ("failed_ask_changed_state",
+                           f"[Learner2D] ask({nreq}, False) raised (its loss function failed) and left pending_points changed: "
+                           f"{len(before[1])} -> {len(after[1])} pending points")
+            return res
+        X.sync_l2d_pending_order("l2d", a, b)   # (iteration order of the pending hash set: recorded finding, neutralised)
+        for m in (1, 3):
+            ra, rb = a.ask(m), b.ask(m)
+            if L.canon(ra) != L.canon(rb):
+                res["fail"] = ("failed_ask_changed_state",
+                               f"[Learner2D] after a failed ask({nreq}, False) the next ask({m}) answers {ra[0]} but the twin that never "
+                               f"received the failing call {rb[0]}")
+                return res
+    except Exception as e:  # noqa: BLE001
+        res["aborted"] = type(e).__name__
+    return res
+
+
 def _all_learners(l):
     """the learner and every learner inside it (DataSaver.learner, BalancingLearner.learners), depth first"""
     out = [l]
@@ -294,6 +352,7 @@ def run(ctx):
     proof = core.prove(MODULES, extra_targets=["AdaptiveProofs.Examples.Misc"], leanchecker=ctx.thorough)
     args = [(kn, ctx.rng.randrange(1 << 30), ctx.n(30, 60)) for kn in KINDS for _ in range(ctx.n(14, 300))]
     results = core.pmap(case, args)
+    results += core.pmap(l2d_failed_ask_case, [ctx.rng.randrange(1 << 30) for _ in range(ctx.n(12, 120))])
     failures, dist, aborted = [], {}, {}
     nextra = nfailed = 0
     for r in results:
@@ -367,6 +426,6 @@ def run(ctx):
 
 def replay(ctx, path):
     d = json.load(open(path)).get("replay")
-    r = case((d["kind"], d["seed"], d["nops"]))
+    r = l2d_failed_ask_case(d["seed"]) if d["kind"] == "l2d:failing-loss" else case((d["kind"], d["seed"], d["nops"]))
     print(r)
     return 1 if r["fail"] else 0
